@@ -2,6 +2,7 @@
 package props
 
 import (
+	"fmt"
 	"regexp"
 	"kverif/core"
 )
@@ -77,4 +78,75 @@ func errClassifier(idPrefix, typ string, withIgnore bool) []Rule {
 		)
 	}
 	return rules
+}
+
+// allocatableViewRules: what an in-flight node offers. StateNode.Allocatable() returns the Node's own allocatable only once
+// the node is initialized (or unmanaged); before that, zero / missing quantities are taken from the launched NodeClaim's
+// *allocatable* (not its capacity: kube-reserved and eviction thresholds are already subtracted there).
+func allocatableViewRules(p string) []Rule {
+	const sn = "(*state.StateNode)."
+	return []Rule{
+		core.Custom{ID: p + ".VIEWA1", Kind: "RET", Run: func(w *core.World, id string) []core.Result {
+			rs := core.RetLeavesGuarded(w, id, "RET", sn+"Allocatable", 0, `^\$0\.NodeClaim\.Status\.Allocatable$|^lo\.Assign\[`,
+				G(`+^\(\*state\.StateNode\)\.Initialized\(\$0\)$`, `+^\$0\.NodeClaim == nil$`), 1,
+				"the raw Node allocatable is returned only when initialized or without NodeClaim")
+			rs = append(rs, core.RetLeavesGuarded(w, id, "RET", sn+"Allocatable", 0, `^\$0\.Node\.Status\.Allocatable$|^lo\.Assign\[`,
+				G(`+^\$0\.Node == nil$`), 1, "the NodeClaim's allocatable is used on its own only while there is no Node")...)
+			return rs
+		}},
+		POST{ID: p + ".VIEWA2", Fn: sn + "Allocatable", FromLit: `+^utils/resources\.IsZero\(lo\.Assign\[.*\]\(&local<\[1\]corev1\.ResourceList>\[:\]\)\[next\(range\(\$0\.NodeClaim\.Status\.Allocatable\)\)#1\]\)$`,
+			Must: []string{`^mapupdate lo\.Assign\[.*\]\(&local<\[1\]corev1\.ResourceList>\[:\]\)\[next\(range\(\$0\.NodeClaim\.Status\.Allocatable\)\)#1\] = next\(range\(\$0\.NodeClaim\.Status\.Allocatable\)\)#2$`},
+			Note: "zero quantities reported by an uninitialized node are overridden by the NodeClaim's"},
+	}
+}
+
+// toleratesRules: Taints.Tolerates judges a taint tolerated iff some toleration tolerates it — every toleration is put to
+// corev1.Toleration.ToleratesTaint (which knows about empty keys, Exists and effects) unless one already matched.
+func toleratesRules(p string) []Rule {
+	const tol = "(scheduling.Taints).Tolerates"
+	return []Rule{
+		ITER{ID: p + ".TOL1", Fn: tol, Loop: `+^\(phi\(-1\|\(phi↺ \+ 1\)\) \+ 1\) < len\(\$1\)$`, Gates: gates(
+			G(`+^phi\(false\|phi\(true\|\(\*corev1\.Toleration\)\.ToleratesTaint\(`, `instr:^call \(\*corev1\.Toleration\)\.ToleratesTaint\(\$1\[.*\], operator/logging\.NopLogger, \$0\[.*\], true\)$`),
+		), Note: "no toleration is skipped"},
+	}
+}
+
+// usageBookkeepingRules: what a bound pod adds to its node's aggregates — requests go to the request maps and limits to
+// the limit maps, for ordinary and for daemonset pods alike (the scheduler nets DaemonSetRequests out of the expected
+// daemon overhead of an existing node; a wrong quantity there is subtracted twice or not at all).
+func usageBookkeepingRules(p string) []Rule {
+	const up = "(*state.StateNode).updateForPod"
+	key := `cr/client\.ObjectKeyFromObject\(<\*corev1\.Pod>\$3\)`
+	row := func(field, fn string) string {
+		return `^mapupdate \$0\.` + field + `\[` + key + `\] = utils/resources\.` + fn + `\(&local<\[1\]\*corev1\.Pod>\[:\]\)$`
+	}
+	return []Rule{core.Custom{ID: p + ".USE1", Kind: "PROV", Run: func(w *core.World, id string) []core.Result {
+		var rs []core.Result
+		for _, r := range [][2]string{{"podRequests", "RequestsForPods"}, {"podLimits", "LimitsForPods"}, {"daemonSetRequests", "RequestsForPods"}, {"daemonSetLimits", "LimitsForPods"}} {
+			rs = append(rs, core.InstrPresent(w, id, "PROV", up, row(r[0], r[1]), 1, r[0]+" records "+r[1]+"(pod)")...)
+			if fn := w.Fn(up); fn != nil {
+				if n := len(w.SitesOr(fn, regexp.MustCompile(`^mapupdate \$0\.`+r[0]+`\[`), true, 1)); n != 1 {
+					rs = append(rs, core.Bad(id, "PROV", "PROV:"+up+":"+r[0], w.Pos(fn.Pos()), fmt.Sprintf("%s is written at %d sites, 1 confirmed by hand", r[0], n)))
+				}
+			}
+		}
+		rs = append(rs, core.InstrPresent(w, id, "PROV", up, `^store &local<\[1\]\*corev1\.Pod>\[0\] = \$3$`, 2, "…of the pod being bound")...)
+		return rs
+	}}}
+}
+
+// nodePodsRules: the pods of a node are listed by the Node's name (spec.nodeName), not by its hostname label.
+func nodePodsRules(p string) []Rule {
+	const pods = "(*state.StateNode).Pods"
+	return []Rule{core.Custom{ID: p + ".PODS1", Kind: "PROV", Run: func(w *core.World, id string) []core.Result {
+		rs := core.InstrPresent(w, id, "PROV", pods, `^return utils/node\.GetPods\(\$2, &local<\[1\]string>\[:\]\)#0, utils/node\.GetPods\(\$2, &local<\[1\]string>\[:\]\)#1$`, 1, "the node's pods are what GetPods lists")
+		return append(rs, core.InstrPresent(w, id, "PROV", pods, `^store &local<\[1\]string>\[0\] = \$0\.Node\.ObjectMeta\.Name$`, 1, "…for the Node's name")...)
+	}}}
+}
+
+// syncedFreshRules: the provisioning pass runs on the cluster state it just found synced — nothing blocks between the
+// Synced test and Schedule (the batching window comes first).
+func syncedFreshRules(p string) []Rule {
+	return []Rule{NOREACH{ID: p + ".FRESH1", Fn: "(*prov.Provisioner).Reconcile", FromLit: `+^\(\*state\.Cluster\)\.Synced\(\$0\.cluster\)$`,
+		Sink: `^call \(\*prov\.Batcher\[.*\]\)\.Wait\(|^call time\.Sleep\(|^call iface:\(k8s\.io/utils/clock\.\w+\)\.(Sleep|After)\(`, Note: "no waiting after the Synced test"}}
 }
